@@ -5,8 +5,12 @@
    arun code fi     any number of steps, every control path, loops included
    check_fn         the certificate checker that bin/check runs (extracted) on the real bytecode *)
 From Coq Require Import List ZArith Bool Arith.
+Require Import ZV.Model.RefSem.
+Require ZV.Model.GenF1.
 Require Import ZV.Model.Bytecode ZV.Model.Verifier ZV.Model.VerifierExamples ZV.Proofs.VerifierProofs.
+Require Import ZV.Model.GenAnnot ZV.Proofs.GenVerifies.
 Import ListNotations.
+Local Open Scope nat_scope.
 
 (* every run of a verified function from its entry (np arguments above base, depths s0 a0 l0)
    that reaches a Return has consumed its np arguments and left exactly one value above base;
@@ -78,6 +82,49 @@ Print Assumptions tail_goto_same_annot.
 Theorem effect_ok_is_step : forall code fi s s', effect_ok code fi s s' = true -> astep code fi s s'.
 Proof. exact effect_ok_is_step_lemma. Qed.
 Print Assumptions effect_ok_is_step.
+
+(* ---- generator + checker (with the C02 model of the real code generator, Model/GenF1.v) ----
+   gen_verifies for the loop-free fragment F0 (literals, variables, calls as one instruction, begin,
+   cond, and/or, def/set, let, letseq, newScope; every nesting): EVERY output of the model generator,
+   mapped to the checker's instruction type by to_bytecode, is accepted by check_fn with the
+   annotation annot_of built by structural recursion on the expression. *)
+Theorem gen_verifies_F0 : forall fi e, GenF1.f1 e = true -> lf e = true ->
+  check_fn (to_bytecode (GenF1.gen GenF1.top 0 e)) fi true 0 (annot_of e) = true.
+Proof. exact gen_verifies_F0_lemma. Qed.
+Print Assumptions gen_verifies_F0.
+
+(* The full statement for F1 = F0 + for / break / continue is
+     forall fi e, GenF1.f1 e = true -> cc [] e = true ->
+       exists a, check_fn (to_bytecode (GenF1.gen GenF1.top 0 e)) fi true 0 a = true.
+   Proved so far: the part without loops (the premise lf).  Missing: the annotation of
+   GenerateForLoop (states at the continue / break labels = the loop's clean state plus one state
+   per continue / break site, the increment annotated under each of them), with the two side
+   lemmas it needs (jump states have the shape  junk ++ mark :: below  with marks of inner loops only;
+   cc [] on init/test/step means no escaping jump).  to_bytecode already maps the loop instructions. *)
+Theorem gen_verifies_F1_partial : forall fi e, GenF1.f1 e = true -> lf e = true ->
+  exists a, check_fn (to_bytecode (GenF1.gen GenF1.top 0 e)) fi true 0 a = true.
+Proof. intros fi e Hf Hl. exists (annot_of e). now apply gen_verifies_F0_lemma. Qed.
+Print Assumptions gen_verifies_F1_partial.
+
+(* generator + machine, no longer per-program translation validation: the code of ANY loop-free
+   program, run from the interpreter at rest along any path to its end, leaves it at rest *)
+Theorem f0_leaves_nothing_behind : forall fi e s s',
+  GenF1.f1 e = true -> lf e = true -> at_rest s = true -> Verifier.pc s = 0 ->
+  arun (to_bytecode (GenF1.gen GenF1.top 0 e)) fi s s' ->
+  length (to_bytecode (GenF1.gen GenF1.top 0 e)) <= Verifier.pc s' ->
+  at_rest (run_finish s') = true.
+Proof. exact f0_leaves_nothing_behind_lemma. Qed.
+Print Assumptions f0_leaves_nothing_behind.
+
+(* the compositional annotation on a nested program, by computation *)
+Example annot_of_nested :
+  let e := EBegin [EDef 1%Z (EInt 3);
+                   ECond [(EVar 1%Z, EAnd [EInt 1; EVar 1%Z; ECall (EVar 2%Z) [EInt 1]]);
+                          (EBool true, ELet false [(3%Z, EInt 1); (4%Z, EOr [EInt 2; EInt 3])] [EVar 3%Z; ESet 3%Z (EVar 4%Z)])]
+                         (ELet true [(5%Z, EInt 1); (6%Z, EVar 5%Z)] [EScope [EInt 1; EVar 6%Z]])] in
+  GenF1.f1 e = true /\ lf e = true /\
+  check_fn (to_bytecode (GenF1.gen GenF1.top 0 e)) {| f_varargs := false; f_nargs := 0 |} true 0 (annot_of e) = true.
+Proof. vm_compute. repeat split; reflexivity. Qed.
 
 (* ---- non-vacuity: check_fn accepts the real bytecode of real functions ---- *)
 Example accepts_sumto :   (* tail-recursive, self tail call inside let inside cond *)
